@@ -189,7 +189,7 @@ theorem wf_typed (env : Env) (c : Ctx) (l : LEnv) (e : Expr) (h : WF env c l e) 
   | defined e => simp only [tyOf, eval, vDefined]; exact Or.inr ⟨_, rfl⟩
   | and a b => simp only [tyOf, eval, vAnd]; exact Or.inr ⟨_, rfl⟩
   | or a b => simp only [tyOf, eval, vOr]; exact Or.inr ⟨_, rfl⟩
-  | ruleRef k => simp only [tyOf, eval]; exact Or.inr ⟨_, rfl⟩
+  | ruleRef k => simp only [tyOf, eval]; split; exact Or.inl rfl; exact Or.inr ⟨_, rfl⟩
   | ofStr q qe set => simp only [tyOf, eval]; exact quantHolds_ok _ _ _
   | ofStrIn q qe set lo hi =>
     simp only [tyOf, eval]
